@@ -151,6 +151,11 @@ fn run_one(st: &Value, idx: usize, seed: u64) -> (Vec<Value>, bool) {
     let mut events = vec![json!({"ev":"reset","mode":kind,"stim":idx,"id":st.get("id").cloned().unwrap_or(json!(""))})];
     // the probe after the run: the harness thread reads every region once, with nothing else running
     let probe: Box<dyn Fn(&SystemHardware) -> Vec<Value>>;
+    // "cpin": the object is CREATED by a thread that is pinned to that region (the harness thread, pinned through this
+    // hardware instance for the occasion); every instance made from the family must still act on its own thread's region
+    if let Some(g) = st.get("cpin").and_then(Value::as_u64) {
+        move_to(&hw, g as u32);
+    }
     if kind == "cached" {
         let first = RegionCached::with_hardware(0u64, hw.clone());
         for (t, prog) in progs.into_iter().enumerate() {
@@ -163,7 +168,8 @@ fn run_one(st: &Value, idx: usize, seed: u64) -> (Vec<Value>, bool) {
             for g in 0..nr {
                 move_to(hw, g);
                 v.push(json!({"ev":"rb","t":99,"g":g,"pin":false}));
-                let x = first.get_cached();
+                let inst: RegionCached<u64> = linked::Object::family(&first).into();
+                let x = inst.get_cached();
                 v.push(json!({"ev":"re","t":99,"w":x / 1000,"k":x % 1000}));
             }
             v
@@ -180,7 +186,8 @@ fn run_one(st: &Value, idx: usize, seed: u64) -> (Vec<Value>, bool) {
             for g in 0..nr {
                 move_to(hw, g);
                 v.push(json!({"ev":"rb","t":99,"g":g,"pin":false}));
-                let x = first.get_local();
+                let inst: RegionLocal<u64> = linked::Object::family(&first).into();
+                let x = inst.get_local();
                 v.push(json!({"ev":"re","t":99,"w":x / 1000,"k":x % 1000}));
             }
             v
